@@ -95,7 +95,9 @@ def las_files(rng, n):
         wrap = rng.random() < 0.4
         content = c09.make_content(rng, nhdr, nf, wrap, spelt)
         hist = []
-        for _ in range(rng.choice([0, 0, 1, 3])):
+        # lines before the version section: none, a few, or a banner of several hundred comment / blank lines (tens of kilobytes: 'the
+        # answer does not depend on the file's ... size')
+        for _ in range(rng.choice([0, 0, 1, 3]) if i % 4 != 3 else rng.choice([120, 400, 1500])):
             hist.append((rng.choice(['comment', 'blank', 'spaces']),))
         for s in 'VWCP':
             if s == 'P' and not nhdr['P']:
